@@ -51,6 +51,18 @@ pub fn run(args: &Args) -> i32 {
         h.state_oracle = Some(oracle(enc));
         models.push((h.label(theme), h));
     }
+    // the same alphabet plus "actor churn" (a rolled-back transaction of a new, first-sorting actor on
+    // one replica: the actor table is rewritten twice while nothing observable may change)
+    let churn_cfgs: Vec<(&str, &str, Vec<u8>, u8)> = if args.thorough() {
+        super::history_configs(1)
+    } else {
+        vec![("map", "B2", vec![1, 1], 1), ("list", "B2", vec![1, 1], 1), ("text", "B2", vec![1, 1], 1)]
+    };
+    for (theme, base, edits, merges) in churn_cfgs {
+        let mut h = History::new(theme, base, enc, &edits, merges).with_churn(1);
+        h.state_oracle = Some(oracle(enc));
+        models.push((format!("{} +churn", h.label(theme)), h));
+    }
     let lim = Limits {
         max_wall_s: if args.thorough() { 1500.0 } else { 50.0 },
         ..Default::default()
